@@ -136,6 +136,12 @@ let () =
            (match flush !s.core fLUSH_FULL (z_of_int (zs now)) with
             | Panic w -> report "flush-panic" line "" ("P" ^ zi w)
             | Ok ((k1, _), _) -> s := { core = k1; bufptr = !s.bufptr }; check_proj line proj)
+       | "c" :: now :: "=" :: proj ->
+           (* UDPSession.Close: close_full (Sess.v) - one more full flush of the core *)
+           incr steps; incr stepno; incr flushes;
+           (match close_full !s (z_of_int (zs now)) with
+            | Panic w -> report "close-panic" line "" ("P" ^ zi w)
+            | Ok (s1, _) -> s := s1; check_proj line proj)
        | "i" :: now :: nd :: d :: "=" :: proj ->
            incr steps; incr stepno; incr inputs;
            let dg =
